@@ -2,13 +2,15 @@
 """lower_arena_main.py -- the two constructor shapes (Bucket::with_capacity, Arena::new) and the driver that writes
 ArenaGen.v.  See lower_arena.py for the statement/expression subset.
 
-  Bucket::with_capacity(capacity: NonZeroUsize) -> LassoResult<Self>     recognised shape (inside an optional `unsafe { }`):
-        [debug_assert!(Layout::from_size_align(SIZE, align_of::<u8>()).is_ok());]
-        let L = Layout::from_size_align_unchecked(SIZE, align_of::<u8>());
+  Bucket::with_capacity(capacity: NonZeroUsize) -> LassoResult<Self>     recognised shapes (inside an optional `unsafe { }`):
+        let L = Layout::from_size_align(SIZE, align_of::<u8>()).map_err(|_| LassoError::new(LassoErrorKind::K))?;      (checked)
+     or [debug_assert!(Layout::from_size_align(SIZE, align_of::<u8>()).is_ok());]
+        let L = Layout::from_size_align_unchecked(SIZE, align_of::<u8>());                    (unchecked, before 784e567)
+     followed by
         let I = NonNull::new(alloc(L)).ok_or_else(|| LassoError::new(LassoErrorKind::K))?.cast();
         Ok(Self { index: E, capacity: NZ, items: I })
-     meaning: allocate SIZE bytes (alignment 1; the allocator is assumed not to fail), fields as written; obligation
-     SIZE <= isize::MAX (safety precondition of from_size_align_unchecked).
+     meaning: allocate SIZE bytes (alignment 1; the allocator is assumed not to fail), fields as written.  Checked:
+     Err(K) iff SIZE > isize::MAX.  Unchecked: obligation SIZE <= isize::MAX (safety precondition of the constructor).
   Arena::new(capacity: NonZeroUsize, max_memory_usage: usize) -> LassoResult<Self>      recognised shape:
         Ok(Self { buckets: vec![Bucket::with_capacity(NZ)?, ..], bucket_capacity: NZ, memory_usage: E, max_memory_usage: E })
 """
@@ -49,8 +51,23 @@ def lower_with_capacity(u, f, known):
     l1, l2 = stmts
     if l1[2][0] != "pbind" or l2[2][0] != "pbind": lost(l1, "let pattern")
     lay, items = l1[2][2], l2[2][2]
-    size = layout_args(l1[4], "from_size_align_unchecked")
-    if size is None: lost(l1, "layout is not Layout::from_size_align_unchecked(SIZE, align_of::<u8>())")
+    # shape 1 (checked):   Layout::from_size_align(SIZE, align_of::<u8>()).map_err(|_| LassoError::new(LassoErrorKind::K))?
+    # shape 2 (unchecked): Layout::from_size_align_unchecked(SIZE, align_of::<u8>())        (before commit 784e567)
+    e1 = strip(l1[4]); layout = None
+    if e1[0] == "try":
+        m = strip(e1[2])
+        if m[0] == "mcall" and m[3] == "map_err" and len(m[4]) == 1 and m[4][0][0] == "closure" and m[4][0][2] == ["_"]:
+            size = layout_args(m[2], "from_size_align")
+            if size is not None:
+                if asserted is not None: lost(l1, "debug_assert! in front of the checked Layout constructor")
+                layout = "LayoutChecked %s" % fnl.errkind(m[4][0][3])
+    else:
+        size = layout_args(e1, "from_size_align_unchecked")
+        if size is not None:
+            layout = "LayoutUnchecked (%s)" % ("Some (%s)" % asserted if asserted else "None")
+    if layout is None:
+        lost(l1, "layout is neither Layout::from_size_align(SIZE, align_of::<u8>()).map_err(|_| LassoError::new(..))? "
+                 "nor Layout::from_size_align_unchecked(SIZE, align_of::<u8>())")
     # let items = NonNull::new(alloc(layout)).ok_or_else(|| LassoError::new(LassoErrorKind::K))?.cast();
     e = strip(l2[4]); ok = False
     if e[0] == "mcall" and e[3] == "cast" and not e[4] and strip(e[2])[0] == "try":
@@ -72,7 +89,7 @@ def lower_with_capacity(u, f, known):
     if not is_path(strip(flds["items"]), items): lost(s, "field items is not the allocated pointer")
     idx = fnl.num(flds["index"]); cap = fnl.nz(flds["capacity"])
     text = "(* %s:%d-%d  fn with_capacity *)\nDefinition gen_with_capacity : wcdef :=\n  mkWc %s (%s)\n    (* size  *) (%s)\n    (* index *) (%s)\n    (* capacity *) (%s).\n" % (
-        u.rel, f[1], f[7], q(par), "Some (%s)" % asserted if asserted else "None", size, idx, cap)
+        u.rel, f[1], f[7], q(par), layout, size, idx, cap)
     return text
 
 
